@@ -89,6 +89,21 @@ var externTypes = map[string]string{
 	"*go/types.Var":       "field",
 	"*go/types.Func":      "go_func",
 	"*go/types.Signature": "sig",
+	// a types.Type viewed as one of its classes after a type assertion: still the model's ty
+	"*go/types.Pointer": "ty",
+	"*go/types.Slice":   "ty",
+	"*go/types.Basic":   "ty",
+	"*go/types.Named":   "ty",
+	"*go/types.Struct":  "ty",
+}
+
+// typeClasses: the recognisers (GoLib.v) of the classes of go/types a types.Type is asserted to.
+var typeClasses = map[string]string{
+	"*go/types.Pointer": "go_is_pointer",
+	"*go/types.Slice":   "go_is_slice",
+	"*go/types.Basic":   "go_is_basic",
+	"*go/types.Named":   "go_is_named",
+	"*go/types.Struct":  "go_is_struct",
 }
 
 func (g *gofun) coqType(t types.Type, field bool, pos token.Pos) string {
@@ -534,6 +549,8 @@ func (c *fnCtx) externCall(e *ast.CallExpr) (string, bool) {
 	}
 	rt := c.typeOf(sel.X).String()
 	switch {
+	case (rt == "*go/types.Pointer" || rt == "*go/types.Slice") && sel.Sel.Name == "Elem" && len(e.Args) == 0:
+		return fmt.Sprintf("(go_type_elem %s)", c.expr(sel.X)), true
 	case rt == "*go/types.Var" && sel.Sel.Name == "Name" && len(e.Args) == 0:
 		return fmt.Sprintf("(f_name %s)", c.expr(sel.X)), true
 	case rt == "*go/types.Var" && sel.Sel.Name == "Type" && len(e.Args) == 0:
@@ -961,6 +978,24 @@ func (c *fnCtx) block(stmts []ast.Stmt, tail func() string) string {
 }
 
 func (c *fnCtx) assign(s *ast.AssignStmt) string {
+	// v, ok := t.(*types.K): the value itself and whether it belongs to the class
+	if len(s.Lhs) == 2 && len(s.Rhs) == 1 {
+		if ta, isTA := s.Rhs[0].(*ast.TypeAssertExpr); isTA && ta.Type != nil {
+			if rec, isClass := typeClasses[c.typeOf(ta.Type).String()]; isClass && c.typeOf(ta.X).String() == "go/types.Type" {
+				x := c.expr(ta.X)
+				var out string
+				if id, ok := s.Lhs[0].(*ast.Ident); ok && id.Name != "_" {
+					c.bind(id.Name)
+					out += fmt.Sprintf("let %s := %s in\n", coqIdent(id.Name), x)
+				}
+				if id, ok := s.Lhs[1].(*ast.Ident); ok && id.Name != "_" {
+					c.bind(id.Name)
+					out += fmt.Sprintf("let %s := (%s %s) in\n", coqIdent(id.Name), rec, x)
+				}
+				return out
+			}
+		}
+	}
 	// v, ok := call() / a, b := f()
 	if len(s.Lhs) > 1 && len(s.Rhs) == 1 {
 		var names []string
@@ -1097,6 +1132,12 @@ func (c *fnCtx) ifStmt(s *ast.IfStmt, after []ast.Stmt, tail func() string) stri
 			vId, _ := as.Lhs[0].(*ast.Ident)
 			if okId == nil || cond == nil || vId == nil || okId.Name != cond.Name {
 				c.g.fail(s.Pos(), "type assertion whose flag is not the condition")
+			}
+			if _, isClass := typeClasses[c.typeOf(ta.Type).String()]; isClass {
+				init := s.Init
+				s2 := *s
+				s2.Init = nil
+				return c.block(append([]ast.Stmt{init, &s2}, after...), tail)
 			}
 			tn, ok := c.typeOf(ta.Type).(*types.Named)
 			if !ok {
@@ -1521,6 +1562,19 @@ var gofunUnits = []gofunUnit{
 			{"github.com/reedom/convergen/pkg/option", "Options", "CompareFieldName"},
 		},
 		doc: "pkg/builder/model node.go and struct.go: the methods of the expression nodes (RootNode, ScalarNode, ConverterNode, TypecastEntry, StringerEntry, StructFieldNode, StructMethodNode) by cases"},
+}
+
+func init() {
+	gofunUnits = append(gofunUnits, gofunUnit{module: "GoUtil", paths: []string{"github.com/reedom/convergen/pkg/util"},
+		roots: [][3]string{
+			{"github.com/reedom/convergen/pkg/util", "", "IsSliceType"},
+			{"github.com/reedom/convergen/pkg/util", "", "IsBasicType"},
+			{"github.com/reedom/convergen/pkg/util", "", "IsNamedType"},
+			{"github.com/reedom/convergen/pkg/util", "", "IsPtr"},
+			{"github.com/reedom/convergen/pkg/util", "", "DerefPtr"},
+			{"github.com/reedom/convergen/pkg/util", "", "Deref"},
+		},
+		doc: "pkg/util/types.go: the class predicates on types.Type"})
 }
 
 func (g *gofun) translateDispatcherRoot(n *types.Named, m string) (err string) {
